@@ -299,3 +299,28 @@ Example C01_listing_nonvacuous :
   (match txn_list_databases (fun _ _ => Ok true) c [] with
    | inl l => map (fun d => Get d "name") l | inr _ => [] end) = [VString "db"; VString "db2"].
 Proof. vm_compute. split; reflexivity. Qed.
+
+(* ---------------- tie to the source: the listing documents (G8) ----------------
+   Gen/Listing.v is regenerated from transaction.go on every run. *)
+From Lungo.Proofs Require Import GenListing.
+From Lungo.Gen Require Import Listing.
+
+Theorem C01_source_coll_spec_is_model : forall h,
+  inst_doc (coll_env h) gen_coll_spec = Some (coll_spec h).
+Proof. exact gen_coll_spec_is_model. Qed.
+Print Assumptions C01_source_coll_spec_is_model.
+
+Theorem C01_source_db_spec_is_model : forall l db,
+  inst_doc (db_env l db) gen_db_spec = Some (db_spec l db).
+Proof. exact gen_db_spec_is_model. Qed.
+Print Assumptions C01_source_db_spec_is_model.
+
+Theorem C01_source_listing_tails :
+  gen_list_collections_post =
+  ["list, err = mongokit.Filter(list, query, 0)"; "if err != nil { return nil, err }";
+   "bsonkit.Sort(list, []bsonkit.Column{{Path: ""name""}})"; "return list, nil"]%string /\
+  gen_list_databases_post =
+  ["var list bsonkit.List"; "list, err := mongokit.Filter(list, query, 0)"; "if err != nil { return nil, err }";
+   "bsonkit.Sort(list, []bsonkit.Column{{Path: ""name""}})"; "return list, nil"]%string.
+Proof. split; [exact gen_list_collections_post_ok|exact gen_list_databases_post_ok]. Qed.
+Print Assumptions C01_source_listing_tails.
